@@ -35,22 +35,33 @@
 (*               semantics, are the relocated paths of the source subtree  *)
 (*               (rules of the doc comment of manifest.Extract), each with *)
 (*               the source file's bytes.  Token layout, block order and   *)
-(*               being in normalised form are not judged.  "Preserves each *)
-(*               file's byte sequence" is read as "when read back": the    *)
-(*               produced locators must still carry hints (signatures)     *)
-(*               they had in the source (Manifest!HintsPreserved).         *)
+(*               being in normalised form are not judged.                  *)
 (*  (c) "the portable data hash is the MD5 and length of the manifest text *)
 (*      with every locator reduced to hash+size"                           *)
 (*          Pdh: got = want, where want is MD5+length (computed by the     *)
 (*               concretiser, crypto/md5) of the text of                   *)
-(*               Manifest!StripManifest(m); SizedDigests returns           *)
-(*               Manifest!StrippedBlocks(m) (in order, hash+size each).    *)
+(*               Manifest!StripManifest(m).                                *)
 (*  (d) "No parser panics or hangs on any input string, and malformed      *)
 (*      manifests are rejected with an error rather than partially applied"*)
 (*          Load: never "panic"/"hang"; for a single-token mutation that   *)
 (*          makes the text malformed (mut # "none") the codecs that have   *)
 (*          an error return must answer "error" for the mutation kinds in  *)
 (*          MustReject.  Arbitrary byte strings are outside this technique.*)
+(* DRIFT-ONLY clauses (no sentence of the statement behind them; a trace    *)
+(* failing only these is reported as DRIFT, exit code stays 0):            *)
+(*   OutHintsOK  Extract/normalisation keep the +A/+R/+K hints the blocks  *)
+(*               had in the source (Manifest!HintsPreserved)               *)
+(*   DigestsOK   Collection.SizedDigests = Manifest!StrippedBlocks(m)      *)
+(* Every other clause maps to the sentence quoted next to it above:        *)
+(*   Load (ok for valid, file list = Paths(m))      (a) first sentence     *)
+(*   File (bytes of whole file and of sub-ranges)   (a) first sentence     *)
+(*   Out  (relocated paths, same bytes)             (b) "extracting or     *)
+(*        normalizing ... preserves each file's byte sequence and its      *)
+(*        unescaped name"                                                  *)
+(*   Pdh                                            (c) "the portable data *)
+(*        hash is the MD5 and length of the manifest text with every       *)
+(*        locator reduced to hash+size"                                    *)
+(*   Load (never panic/hang; error for MustReject)  (d) last sentence      *)
 (* Where the statement is silent the generator avoids the case: a path     *)
 (* that is both file and directory, "." / ".." components, placeholder     *)
 (* tokens "0:0:.", and TWO CONSECUTIVE BACKSLASHES in manifest text.  On    *)
@@ -133,13 +144,15 @@ OutOK(src, rel, slash, kind, out) ==
     /\ LET em == ExtractMap(src, rel, slash)
        IN /\ Paths(out) = {x[2] : x \in em}
           /\ \A x \in em : Bytes(out, x[2]) = Bytes(m, x[1])
-    /\ HintsPreserved(m, out)                 \* ... and can be read back: locators keep hints they had in m
+\* DRIFT-ONLY (no sentence of the statement): the produced locators still carry hints they had in m
+OutHintsOK(out) == HintsPreserved(m, out)
 Out(src, rel, slash, kind, out) == OutOK(src, rel, slash, kind, out) /\ UNCHANGED cvars
 
-PdhOK(got, want, dkind, blocks) == /\ mut = "none"
-                                   /\ got = want                                \* (c) PortableDataHash
-                                   /\ dkind = "ok" /\ blocks = StrippedBlocks(m) \* (c) SizedDigests
-Pdh(got, want, dkind, blocks) == PdhOK(got, want, dkind, blocks) /\ UNCHANGED cvars
+PdhOK(got, want) == mut = "none" /\ got = want                           \* (c) PortableDataHash
+\* DRIFT-ONLY (the statement speaks of the portable data hash only): SizedDigests lists the blocks, in order,
+\* each reduced to hash+size
+DigestsOK(dkind, blocks) == dkind = "ok" /\ blocks = StrippedBlocks(m)
+Pdh(got, want) == PdhOK(got, want) /\ UNCHANGED cvars
 
 TypeOK == /\ codec \in Codecs \cup {"none"}
           /\ loaded \in {"no", "ok", "error"}
